@@ -454,7 +454,7 @@ func runOpsimWL(e *Env) {
 		} else {
 			x.Dur = time.Duration(wl.Choose(4)) * 100 * time.Millisecond
 		}
-		if opts.Patches && len(x.Ctxs) > 0 && fl.Choose(5) == 0 {
+		if opts.Patches && len(x.Ctxs) > 0 && fl.Choose(12) == 0 {
 			// exit 0 with a valid patch; for half of them the API server rejects the write: the outputs
 			// cannot be applied, which is a failed run like any other
 			x.PatchObj = "px-" + strconv.Itoa(x.N)
